@@ -56,8 +56,20 @@ func reuse(nruns int) {
 		w.Srv.TLSConfig = &tls.Config{Certificates: []tls.Certificate{cert}}
 		sc := map[string]interface{}{"reuse": order}
 		ok := true
-		for _, kind := range order {
+		for gi, kind := range order {
 			gens++
+			if gi > 0 && r.Intn(2) == 0 { // a start that cannot succeed in between: nothing may stay bound
+				pb := w.Start(true)
+				res, got := w.Await(w.startCh[pb])
+				w.startDone[pb] = true
+				if !got {
+					w.Hang("ListenAndServe-cannot-succeed", sc)
+					ok = false
+					break
+				}
+				w.CheckListeners(pb, res, sc)
+				w.Srv.Addr = "127.0.0.1:0"
+			}
 			w.Srv.Net = kind // no call is in progress
 			for len(w.started) > 0 {
 				<-w.started
